@@ -304,9 +304,10 @@ macro_rules! impl_traits {
 
         impl Cdf<$kind> for Gaussian {
             fn cdf(&self, x: &$kind) -> f64 {
-                let errf =
-                    ((f64::from(*x) - self.mu) / (self.sigma * SQRT_2)).error();
-                0.5 * (1.0 + errf)
+                // erfc keeps the relative accuracy of the lower tail
+                // (1 + erf(z) cancels for z << 0)
+                let z = (f64::from(*x) - self.mu) / (self.sigma * SQRT_2);
+                0.5 * (-z).compl_error()
             }
         }
 
